@@ -361,6 +361,142 @@ def r19g(ctx: Context) -> None:
             rule.fail(key, where(func, branch), f"a path argument is treated as a glob when '{norm(branch.test)[:80]}': the documented rule is 'contains * or ?', so literal names (for example with '[') are expanded as patterns or rejected as unmatched globs")
 
 
+CANONICALISERS = {"os.path.normpath", "os.path.abspath", "os.path.realpath"}
+
+
+def r19h(ctx: Context) -> None:
+    """'Each file once however many arguments reach it': the set de-duplicates by string, so
+    every string that enters it must be spelled canonically - the result of normpath /
+    abspath / realpath, or built from the roots os.walk yields for a canonical top plus the
+    plain file names it lists.  Separator replacement, stripping a trailing separator and
+    joining do not change that."""
+    prog = ctx.prog
+    rule = ctx.rule("R19h", "every path that enters the discovery set is spelled canonically (normpath), so one file has one spelling", 2)
+    scanner = prog.cls(AFS)
+    root_func, root_set = discovery_set(prog)
+    carriers = forward_taint(prog, [(root_func, root_set)], any_expression=False)
+
+    def bindings(func: FuncInfo, name: str) -> List[Tuple[str, ast.AST]]:
+        """(kind, expr) for every binding of a local: plain assignment, or position in a for-target"""
+        found: List[Tuple[str, ast.AST]] = []
+        for node in walk_local(func.node):
+            if isinstance(node, ast.Assign):
+                for target in node.targets:
+                    if isinstance(target, ast.Name) and target.id == name:
+                        found.append(("value", node.value))
+            elif isinstance(node, ast.AnnAssign) and isinstance(node.target, ast.Name) and node.target.id == name and node.value is not None:
+                found.append(("value", node.value))
+            elif isinstance(node, (ast.For, ast.comprehension)):
+                target = node.target
+                if isinstance(target, ast.Name) and target.id == name:
+                    found.append(("element", node.iter))
+                elif isinstance(target, ast.Tuple):
+                    for index, element in enumerate(target.elts):
+                        if isinstance(element, ast.Name) and element.id == name:
+                            found.append((f"element[{index}]", node.iter))
+        return found
+
+    def plain_name(func: FuncInfo, expr: ast.AST, depth: int) -> bool:
+        """a file name listed by os.walk (third element of its tuples)"""
+        if isinstance(expr, ast.Name) and depth < 6:
+            binds = bindings(func, expr.id)
+            return bool(binds) and all(kind == "element" and walk_files(func, it, depth + 1) for kind, it in binds)
+        return False
+
+    def walk_files(func: FuncInfo, expr: ast.AST, depth: int) -> bool:
+        if isinstance(expr, ast.Name) and depth < 6:
+            binds = bindings(func, expr.id)
+            return bool(binds) and all(kind == "element[2]" and is_walk(func, it, depth + 1) for kind, it in binds)
+        return False
+
+    def is_walk(func: FuncInfo, expr: ast.AST, depth: int) -> bool:
+        return isinstance(expr, ast.Call) and dotted(expr.func) == "os.walk" and bool(expr.args) and canonical(func, expr.args[0], depth + 1)
+
+    def separator(expr: ast.AST) -> bool:
+        return dotted(expr) in ("os.sep", "os.altsep", "os.path.sep") or (isinstance(expr, ast.Constant) and expr.value in ("/", "\\"))
+
+    def canonical(func: FuncInfo, expr: ast.AST, depth: int = 0) -> bool:
+        if depth > 8:
+            return False
+        if isinstance(expr, ast.Call):
+            name = dotted(expr.func) or ""
+            if name in CANONICALISERS and expr.args:
+                return True
+            if isinstance(expr.func, ast.Attribute) and expr.func.attr == "replace" and len(expr.args) == 2 and all(separator(a) for a in expr.args):
+                return canonical(func, expr.func.value, depth + 1)
+            if name == "os.path.join" and len(expr.args) >= 2:
+                return canonical(func, expr.args[0], depth + 1) and all(plain_name(func, a, depth + 1) for a in expr.args[1:])
+            return False
+        if isinstance(expr, ast.IfExp):
+            return canonical(func, expr.body, depth + 1) and canonical(func, expr.orelse, depth + 1)
+        if isinstance(expr, ast.Subscript) and isinstance(expr.slice, ast.Slice):
+            return canonical(func, expr.value, depth + 1)  # a trailing separator stripped
+        if isinstance(expr, ast.JoinedStr):
+            parts = [v.value if isinstance(v, ast.FormattedValue) else v for v in expr.values]
+            if not parts or not canonical(func, parts[0], depth + 1):
+                return False
+            return all(separator(part) or plain_name(func, part, depth + 1) for part in parts[1:])
+        if isinstance(expr, ast.Name):
+            if expr.id in func.params:
+                return False
+            if expr.id in visiting:
+                return True  # a binding in terms of the local itself (x = x[:-1]) keeps what the others establish
+            binds = bindings(func, expr.id)
+            if not binds:
+                return False
+            visiting.add(expr.id)
+            try:
+                return all_bindings_canonical(func, binds, depth)
+            finally:
+                visiting.discard(expr.id)
+        return False
+
+    visiting: Set[str] = set()
+
+    def all_bindings_canonical(func: FuncInfo, binds: List[Tuple[str, ast.AST]], depth: int) -> bool:
+        for kind, value in binds:
+            if kind == "value":
+                if not canonical(func, value, depth + 1):
+                    return False
+            elif kind == "element[0]":
+                if not is_walk(func, value, depth + 1):  # the roots os.walk yields extend its top
+                    return False
+            else:
+                return False
+        return True
+
+    for func in scanner.methods.values():
+        set_params = sorted(carriers.get(func.qualname, set()))
+        for node in walk_local(func.node):
+            if not (isinstance(node, ast.Call) and isinstance(node.func, ast.Attribute) and node.func.attr == "add" and isinstance(node.func.value, ast.Name) and node.func.value.id in set_params and node.args):
+                continue
+            key = func_key(func, node) + " [spelling]"
+            if canonical(func, node.args[0]):
+                rule.ok(key, "normalised before it is added")
+            else:
+                rule.fail(key, where(func, node), f"'{norm(node.args[0])}' enters the set of files as the user spelled it: the same file reached through another spelling ('./d/a.md', 'd//a.md', a directory next to a file argument) is selected and processed twice")
+
+
+def r19i(ctx: Context) -> None:
+    prog = ctx.prog
+    rule = ctx.rule("R19i", "globs are expanded without the recursive flag (as documented)", 1)
+    doc = " ".join(prog.source.read("newdocs/src/user-guide.md").split())
+    if "`recursive` flag to the `glob.glob` function is not enabled" not in doc:
+        raise AnalysisError("user guide: the statement that glob's recursive flag is not enabled was not found")
+    func = prog.method(AFS, "determine_files_to_scan")
+    sites = [s for f in prog.cls(AFS).methods.values() for s in prog.sites_in(f) if s.external in ("glob.glob", "glob.iglob")]
+    if not sites:
+        raise AnalysisError("no glob expansion found in the file scanner")
+    for site in sites:
+        key = func_key(site.caller, site.node) + " [recursive]"
+        extra = [norm(a) for a in site.node.args[1:]] + [f"{k.arg}={norm(k.value)}" for k in site.node.keywords if not (k.arg == "recursive" and isinstance(k.value, ast.Constant) and k.value.value is False)]
+        if extra:
+            rule.fail(key, site.where, f"the glob is expanded with {extra}: the user guide says the recursive flag is not enabled ('**' matches one level, --recurse only governs directories)")
+        else:
+            rule.ok(key, "glob.glob(pattern)")
+    _ = func
+
+
 def run(ctx: Context) -> None:
     r19a(ctx)
     r19b(ctx)
@@ -370,3 +506,5 @@ def run(ctx: Context) -> None:
     r19e(ctx)
     r19f(ctx)
     r19g(ctx)
+    r19h(ctx)
+    r19i(ctx)
